@@ -342,15 +342,17 @@ theorem owner_cannot_raise_cap (t t' : TokenInfo) (sender : Nat) (newCap : Int) 
   · rename_i h1
     split at h
     · cases h
-    · rename_i h2
-      simp only at h
-      split at h
+    · split at h
       · cases h
-        simp only [not_or, Bool.not_eq_true, Decidable.not_not] at h1
-        have h2' : ¬ (t.cap < newCap ∨ newCap = 0) := fun hx => h2 ⟨hcap, hx⟩
-        simp only [not_or] at h2'
-        refine ⟨h2'.2, by simp only; omega, rfl, h1.1, h1.2⟩
-      · cases h
+      · rename_i h2
+        simp only at h
+        split at h
+        · cases h
+          simp only [not_or, Bool.not_eq_true, Decidable.not_not] at h1
+          have h2' : ¬ (t.cap < newCap ∨ newCap = 0) := fun hx => h2 ⟨hcap, hx⟩
+          simp only [not_or] at h2'
+          refine ⟨h2'.2, by simp only; omega, rfl, h1.1, h1.2⟩
+        · cases h
 
 example : registryMint ⟨90, 100, 1, false⟩ 90 10 = some (⟨100, 100, 1, false⟩, 100) ∧ registryMint ⟨90, 100, 1, false⟩ 90 11 = none := by decide
 example : ownerEdit ⟨90, 100, 1, false⟩ 1 95 1 false = some ⟨90, 95, 1, false⟩ ∧ ownerEdit ⟨90, 100, 1, false⟩ 1 0 1 false = none ∧
@@ -394,18 +396,22 @@ theorem owner_edit_supply_within_cap (t t' : TokenInfo) (sender : Nat) (newCap :
   · cases h
   · split at h
     · cases h
-    · simp only at h
-      split at h
-      · rename_i hc
-        cases h
-        unfold capOk at hc
-        simp only [Bool.not_eq_true', Bool.and_eq_false_iff, decide_eq_false_iff_not] at hc
-        rcases hc with hc | hc
-        · exact absurd hcap hc
-        · simp only at hc ⊢; omega
+    · split at h
       · cases h
+      · simp only at h
+        split at h
+        · rename_i hc
+          cases h
+          unfold capOk at hc
+          simp only [Bool.not_eq_true', Bool.and_eq_false_iff, decide_eq_false_iff_not] at hc
+          rcases hc with hc | hc
+          · exact absurd hcap hc
+          · simp only at hc ⊢; omega
+        · cases h
 
 example : ownerEdit ⟨800, 1000, 3, false⟩ 3 500 3 false = none := by decide
+/-- a message without a supply cap (coded as a negative one) cannot lift the cap of a capped token -/
+example : ownerEdit ⟨800, 1000, 3, false⟩ 3 (-1) 3 false = none := by decide
 example : (ownerEdit ⟨800, 1000, 3, false⟩ 3 900 3 false).isSome = true := by decide
 
 /-! ### UBI behind the annual gate, record by record (`Ubi.endLoop`) -/
